@@ -17,7 +17,7 @@ def sh(cmd, cwd=None, env=None, timeout=2400):
 
 
 def one(prop, r):
-    src = '/tmp/wt/%s-ref' % prop
+    src = os.environ.get('REF_SRC', '/tmp/wt/%s-ref') % prop
     patch = os.path.join(src, '%s.diff' % r)
     test = os.path.join(src, 't%s.rs' % r[1:])
     if not os.path.exists(patch):
@@ -41,7 +41,7 @@ def one(prop, r):
         if tname:
             os.remove(os.path.join(repo, 'tests', tname + '.rs'))
         shutil.rmtree(os.path.join(work, 'target'), ignore_errors=True)
-        meta = {'id': '%s-%s' % (prop, r), 'property': prop, 'valid': ok, 'suite': out[-500:], 'alarms': {}}
+        meta = {'id': '%s-%s' % (prop, r.replace('r', os.environ.get('REF_TAG', 'r'))), 'property': prop, 'valid': ok, 'suite': out[-500:], 'alarms': {}}
         if ok:
             def chk(c):
                 e2 = dict(os.environ, VERIF_REPO=repo, VERIF_EVIDENCE_DIR=os.path.join(work, 'ev'), VERIF_OUT_DIR=os.path.join(work, 'out'), VERIF_SELFTEST_CHILD='1')
@@ -51,7 +51,7 @@ def one(prop, r):
                 for c, rc, keys, err in ex.map(chk, ALL):
                     if rc != 0:
                         meta['alarms'][c] = {'exit': rc, 'keys': keys, 'check_error': err}
-            out_dir = os.path.join(V, 'refactors', '%s-%s' % (prop, r))
+            out_dir = os.path.join(V, 'refactors', '%s-%s' % (prop, r.replace('r', os.environ.get('REF_TAG', 'r'))))
             os.makedirs(out_dir, exist_ok=True)
             shutil.copy(patch, os.path.join(out_dir, 'patch.diff'))
             if os.path.exists(test):
